@@ -206,9 +206,28 @@ class SecondPassDiffers(Raised):
 TWICE = [0]      # number of views read twice (evidence counter, read by the checks that use attempt_rows_twice)
 
 
-def attempt_rows_twice(build):
+class StaleAfterEdit(Raised):
+    """outcome of reading one view again after its source list was edited in place, when a view built afresh over the edited
+    source gives something else"""
+
+    def __init__(self, third, twin):
+        self.type = 'StaleAfterEdit'
+        self.text = ('StaleAfterEdit: after the source was edited in place (columns reversed, one row added) the view read %s, '
+                     'a view built afresh over the edited source %s' % (short(third.text if isinstance(third, Raised) else third, 300),
+                                                                         short(twin.text if isinstance(twin, Raised) else twin, 300)))
+        self.partial = None
+        self.where = []
+
+
+EDITED = [0]     # number of views re-read after an in-place edit of their source
+
+
+def attempt_rows_twice(build, live=None):
     """build() -> view; the view is read twice (C01 for the argument forms the catalogue does not vary): returns the rows
-    of the first pass, a Raised, or SecondPassDiffers"""
+    of the first pass, a Raised, or SecondPassDiffers.  With `live` (the plain list-of-lists table the view was built over)
+    a third pass follows an in-place edit of that list - the column order reversed in the header and in every row, one row
+    added - and must equal what a view built afresh over the edited list returns (a view computes from the current contents
+    of its source, pass by pass); the list is restored afterwards"""
     v = attempt(build)
     if isinstance(v, Raised):
         return v
@@ -219,6 +238,22 @@ def attempt_rows_twice(build):
     TWICE[0] += 1
     if isinstance(second, Raised) or crows(second) != crows(first):
         return SecondPassDiffers(first, second)
+    if live is not None and type(live) is list and live and all(type(r) in (list, tuple) for r in live):
+        import copy as _copy
+        saved = list(live)
+        try:
+            live[:] = [type(r)(reversed(r)) for r in saved]
+            if len(saved) > 1:
+                live.append(_copy.deepcopy(live[1]))
+            third = attempt_rows(lambda: v)
+            tv = attempt(build)
+            twin = tv if isinstance(tv, Raised) else attempt_rows(lambda: tv)
+            EDITED[0] += 1
+            a, b = isinstance(third, Raised), isinstance(twin, Raised)
+            if a != b or (not a and crows(third) != crows(twin)) or (a and third.type != twin.type):
+                return StaleAfterEdit(third, twin)
+        finally:
+            live[:] = saved
     return first
 
 
